@@ -19,8 +19,11 @@ def demo_cmd(pid, m, wt):
     files = sorted(os.listdir(d))
     rs = [f for f in files if f.endswith('.rs')]
     run = glob.glob(os.path.join(d, '**', 'run.sh'), recursive=True)
+    top = os.path.join(SRC, pid, 'run_demo.sh')
+    if os.path.exists(top):
+        return 'sh %s %s' % (top, m), None
     if run:
-        return 'sh %s' % run[0], None
+        return 'sh %s %s' % (run[0], wt), None
     if len(rs) == 1:
         name = rs[0][:-3]
         pkgdir, pkg = ('runtime', 'peginator') if pid == 'C11' else (('codegen', 'peginator_codegen') if (pid, m) == ('C12', 'A') else ('macro', 'peginator_macro'))
